@@ -144,6 +144,28 @@ func (e *Engine) stub(fn *ssa.Function, a []Value) (Value, bool) {
 		return ropeVal(out), true
 	case "fmt.Println", "fmt.Printf", "fmt.Print", "fmt.Fprintf", "fmt.Fprintln", "fmt.Fprint",
 		"log.Println", "log.Printf", "log.Print", "log.Fatal", "log.Fatalf", "(*os.File).Write", "(*os.File).WriteString":
+		if strings.HasPrefix(name, "fmt.Fp") {
+			// a writer that is an in-memory buffer is not the process's output
+			if w, ok := a[0].(*Iface); ok {
+				if ts := w.T.String(); ts == "*strings.Builder" || ts == "*bytes.Buffer" {
+					p := bufPtr(w.V)
+					var r *Rope
+					switch name {
+					case "fmt.Fprintf":
+						r = e.sprintf(str(a[1]), sliceVals(a[2]))
+					case "fmt.Fprint":
+						r = &Rope{}
+						for _, x := range sliceVals(a[1]) {
+							r = ropeCat(r, e.sprintf("%v", []Value{x}))
+						}
+					default:
+						unsupported("fmt.Fprintln into a buffer")
+					}
+					p.Obj.Val = ropeCat(p.Obj.Val.(*Rope), r)
+					return Tuple{int64(0), Nil{}}, true
+				}
+			}
+		}
 		e.outputEvent(name)
 		switch name {
 		case "fmt.Println", "fmt.Printf", "fmt.Print", "fmt.Fprintf", "fmt.Fprintln", "fmt.Fprint", "(*os.File).Write", "(*os.File).WriteString":
@@ -237,7 +259,7 @@ func (e *Engine) stub(fn *ssa.Function, a []Value) (Value, bool) {
 			return y.Off - x.Off, true
 		}
 		e.goPanic("needle not found")
-	case "bytes.NewBuffer":
+	case "bytes.NewBuffer", "bytes.NewBufferString":
 		return &Ptr{Obj: e.newObj(ropeOf(a[0]))}, true
 	case "(*bytes.Buffer).WriteRune", "(*strings.Builder).WriteRune":
 		p := bufPtr(a[0])
@@ -310,6 +332,9 @@ func bufPtr(v Value) *Ptr {
 		unsupported("bytes.Buffer embedded in another object")
 	}
 	if _, isRope := p.Obj.Val.(*Rope); !isRope {
+		if !isZeroVal(p.Obj.Val) {
+			unsupported("buffer initialised outside the modelled constructors")
+		}
 		p.Obj.Val = &Rope{}
 	}
 	return p
@@ -320,4 +345,27 @@ var fnIDs = map[*ssa.Function]int64{}
 func (e *Engine) fnID(f *ssa.Function) int64 {
 	// closures of one function share a code pointer in the Go runtime as well
 	return int64(f.Pos()) + 1<<20
+}
+
+func isZeroVal(v Value) bool {
+	switch x := v.(type) {
+	case nil, Nil:
+		return true
+	case int64:
+		return x == 0
+	case bool:
+		return !x
+	case string:
+		return x == ""
+	case float64:
+		return x == 0
+	case *StructV:
+		for _, f := range x.F {
+			if !isZeroVal(f) {
+				return false
+			}
+		}
+		return true
+	}
+	return false
 }
